@@ -41,6 +41,7 @@ type TxRec struct {
 	SeqEnd     int      `json:"-"`
 	FinalsTime am.Time  `json:"-"`
 	Broken     bool     `json:"broken,omitempty"`
+	Args       am.A     `json:"-"`
 }
 
 type Event struct {
@@ -173,6 +174,7 @@ func (t *Tracer) TransitionEnd(tx *am.Transition) {
 	r.Accepted = tx.IsAccepted.Load()
 	r.Broken = tx.IsBroken.Load()
 	r.Uid = uidOf(mut.Args)
+	r.Args = mut.Args
 	r.QueueTick = mut.QueueTick
 	r.Before = slices.Clone(tx.TimeBefore)
 	r.After = slices.Clone(tx.TimeAfter)
